@@ -92,7 +92,7 @@ func (m *monC02) Step(h *History, st *Step) []Violation {
 	switch st.Op.Kind {
 	case OpDonate:
 		return vs
-	case OpAddAllowed, OpUpdateAllowed, OpUpdateParams, OpMsgAddAllowed:
+	case OpAddAllowed, OpUpdateAllowed, OpUpdateParams, OpMsgAddAllowed, OpReimport:
 		if len(delta) != 0 {
 			vs = append(vs, viol("C02/balances-moved", "step #%d: %s moved coins: %v", st.Idx, st.Op.Kind, delta))
 		}
